@@ -240,8 +240,8 @@ theorem BInv.add {U : List Con} {s s' : St} {cs new : List Con} (hR : Reg R E) (
 /-- the cache holds, for every tuple of the answer, a model that gives each expression whose variables the frontend
 knows the value it has in the tuple -/
 def CachedAll (RE : Exp → Prop) (E : Env) (fe : Frontend) (asts : List Exp) (ts : List (List Nat)) : Prop :=
-  ∀ t ∈ ts, ∃ a : Asg, t = asts.map (·.val a) ∧ ∃ m ∈ fe.models,
-    ∀ e ∈ asts, RE e → (∀ v ∈ e.vars, v ∈ fe.variables) → e.val (m.complete E.dflt) = e.val a
+  ∀ t ∈ ts, ∃ a : Asg, t = asts.map (·.val a) ∧
+    ∀ e ∈ asts, RE e → (∀ v ∈ e.vars, v ∈ fe.variables) → ∃ m ∈ fe.models, e.val (m.complete E.dflt) = e.val a
 
 section specs
 variable (R : Con → Prop) (RE : Exp → Prop) (E : Env) (G : St → Prop) (U : List Con)
